@@ -28,6 +28,7 @@ type semStep struct {
 }
 
 type semScenario struct {
+	Cap    *[2]int   `json:"cap,omitempty"` // capacity of the semaphore, (2, 4) unless the script says otherwise
 	Script []semStep `json:"script"`
 }
 
@@ -56,6 +57,9 @@ const semSleepMs = 230 // > short timeout (30) + slack (150)
 func runSemScenario(sc semScenario, id int, settle, slack int) []semLine {
 	r := &semRun{start: time.Now()}
 	capacity := [2]int{2, 4}
+	if sc.Cap != nil {
+		capacity = *sc.Cap
+	}
 	r.log(semLine{"op": "reset", "id": id, "cap": capacity, "slack": slack, "settle": settle, "script": sc.Script})
 	sem := datasemaphore.New(metric(capacity), func(received, processing, releasing dag.Metric) {
 		r.log(semLine{"op": "warn", "received": pair(received), "processing": pair(processing), "releasing": pair(releasing)})
@@ -183,6 +187,9 @@ func CmdSemRun(args []string) int {
 	for _, ls := range results {
 		blocked := map[int]bool{}
 		for _, l := range ls {
+			if l["op"] == "settled" && len(blocked) >= 2 {
+				stats["settled_with_two_or_more_blocked_callers"]++
+			}
 			enc.Encode(l)
 			stats["lines"]++
 			switch l["op"] {
